@@ -176,7 +176,10 @@ func H_C08_skip() {
 		if vxrt.Bool("anchor-end") {
 			pattern = pattern + "$"
 		}
-		if vxrt.Bool("second-level") {
+		if vxrt.Bool("leading-slash") {
+			// -run /x: an empty first element selects every top-level test, x filters the sub-tests
+			pattern = "/" + pattern
+		} else if vxrt.Bool("second-level") {
 			// a sub-test level: /b, /c or /sub
 			pattern += "/" + []string{"b", "c", "sub", "deep"}[vxrt.Choice("second-level-literal", 4)]
 		}
